@@ -39,9 +39,9 @@ def model_scenarios(consts, tag):
         raise C.ToolError("WalkMC scenario export failed")
     scs = [r["sc"] for r in C.tlc_records(out) if r.get("t") == "SCENARIO"]
     scs.sort(key=lambda s: json.dumps(s, sort_keys=True))
-    with open(path + ".tmp", "w") as f:
+    with open(path + C.TMP, "w") as f:
         json.dump(scs, f)
-    os.replace(path + ".tmp", path)
+    os.replace(path + C.TMP, path)
     return scs
 
 
@@ -426,7 +426,9 @@ TREES = {
               "dangling": ("link", None), "lf": ("link", "root/b/g")},
     # names that are not valid UTF-8 (U+E080..U+E0FF stand for the raw bytes 0x80..0xFF, see harness os_name)
     # ... and names with a backslash, which is an ordinary character of a name on this platform
-    "bytes": {"a": {"caf\ue0e9.txt": None, "x\ue0ff": {"g.txt": None}, "n\\d.txt": None, "p\\q": {"r.txt": None}},
+    "bytes": {"a": {"caf\ue0e9.txt": None, "x\ue0ff": {"g.txt": None}, "n\\d.txt": None, "p\\q": {"r.txt": None},
+                    # ... and names with a new line
+                    "l\nm.txt": None, "s\nt": {"u.txt": None, "b.txt": None}, "b.txt": None},
               "\ue080dir": {"f": None, "h.txt": None}, "f": None},
     # three levels of directories a, b with two-character files: the tree that the family walks of C02 use
     "ab3": {"a": {"a": {"a": None, "b": None, "ba": None}, "b": {"a": None, "b": None, "ba": None}, "ab": None},
@@ -554,10 +556,13 @@ def family_walk_scenarios(tier, first_sid, rnd, texts):
     built = [g for g in sorted(texts) if g and pre.get(g) is not None and not re.match(r"^[{<(?i)-]*/", g)
              and not any(c[0] == "root" for c in pre[g])]
     rnd.shuffle(built)
-    deep = [g for g in built if "/" in g]
-    flat = [g for g in built if "/" not in g]
+    # globs with an invariant prefix first (the walk starts beneath the given directory: where it starts decides
+    # what can be found), then globs with separators, then the others
+    prefixed = [g for g in built if pre[g]]
+    deep = [g for g in built if "/" in g and not pre[g]]
+    flat = [g for g in built if "/" not in g and not pre[g]]
     n = 1500 if tier == "quick" else 15000
-    pick = deep[: n * 4 // 5] + flat[: n // 5]
+    pick = prefixed[: 2 * n] + deep[: n * 4 // 5] + flat[: n // 5]
     nodes, index = tree(TREES["ab3"])
     out = []
     for g in pick:
